@@ -1,4 +1,6 @@
-use crate::{r#async::io::reader::read_line, fai::Record, fai::io::reader::record::parse_record};
+use crate::{
+    r#async::io::reader::read_line, fai::Record, fai::io::reader::record::parse_record_bytes,
+};
 use tokio::io::{self, AsyncBufRead};
 
 pub(super) async fn read_record<R>(
@@ -12,11 +14,7 @@ where
     match read_line(reader, buf).await? {
         0 => Ok(0),
         n => {
-            let s =
-                str::from_utf8(buf).map_err(|e| io::Error::new(io::ErrorKind::InvalidData, e))?;
-
-            *record = parse_record(s)?;
-
+            *record = parse_record_bytes(buf)?;
             Ok(n)
         }
     }
